@@ -419,11 +419,16 @@ class Flow:
             lab = s.get("lab")
             if lab in ("T", "F") and cond is not None:
                 val = (lab == "T")
-                r = E.eval3(cond, self._leaf_eval(env))
+                base_eval = self._leaf_eval(env)
+
+                def known(t, env=env, base_eval=base_eval):
+                    r = base_eval(t)
+                    return env.get("@sc:" + E.key(t)) if r is None else r
+                r = E.eval3(cond, known)
                 if r is not None and r != val:
                     self.edges_pruned += 1
                     continue
-                imp = E.implied(cond, val)
+                imp = E.implied(cond, val, known)
                 # an edge whose implied leaf contradicts a fact that holds on every path to here is infeasible
                 contradicted = False
                 for t, v in imp:
@@ -449,7 +454,13 @@ class Flow:
                 if contradicted:
                     self.edges_pruned += 1
                     continue
-                env2 = dict(env)
+                # "@sc:<key>": value a sub-condition took in the short-circuit evaluation of the full expression being evaluated right now (set on the
+                # edges of `&&`/`||`/`?:` terminators, consumed and dropped at the statement-level branch that closes the expression)
+                short_circuit = (b.get("term") or {}).get("k") in ("BinaryOperator", "ConditionalOperator")
+                env2 = dict(env) if short_circuit else {k: v for k, v in env.items() if not k.startswith("@sc:")}
+                if short_circuit:
+                    for t, v in imp:
+                        env2["@sc:" + E.key(t)] = v
                 f2 = set(facts)
                 for t, v in imp:
                     st = E.strip(t)
